@@ -674,3 +674,480 @@ func nilOnlyWhenEmpty(f edgeFact, s ssa.Value) bool {
 	}
 	return sawNil
 }
+
+// arrayStaysArray (R-SUCCESS): what a container method stores as the array's element list is
+// never a nil slice. The encoder spells a nil slice `null`, so an array that loses its last
+// element through `var s []T; s = append(s, rest...)` leaves the document as null instead of
+// []. Every store of the element list (the nodes field in v5, the slice behind the pointer in
+// the legacy package) is of a slice that cannot be nil: made, a literal, an append of at least
+// one element or onto such a slice, or a reslice of the array's own non-empty storage.
+func (b *Body) arrayStaysArray(l *Ledger) {
+	n := 0
+	for _, fn := range b.srcFuncs(b.Lib) {
+		if recvTypeName(fn) != "partialArray" {
+			continue
+		}
+		allInstrs(fn, func(i ssa.Instruction) {
+			st, ok := i.(*ssa.Store)
+			if !ok {
+				return
+			}
+			isList := false
+			if fa, ok := st.Addr.(*ssa.FieldAddr); ok {
+				if fr := fieldOfAddr(fa); fr.Type == "partialArray" {
+					if _, isSl := derefPtr(fa.Type()).Underlying().(*types.Slice); isSl {
+						isList = true
+					}
+				}
+			} else if isPtrToNamed(st.Addr.Type(), "partialArray") {
+				if _, isSl := derefPtr(st.Addr.Type()).Underlying().(*types.Slice); isSl {
+					isList = true
+				}
+			}
+			if !isList {
+				return
+			}
+			n++
+			key := fmt.Sprintf("%s: array storage #%d stored is never a nil slice (an emptied array stays [])", fname(fn), n)
+			if why := nonNilSlice(st.Val, fn, 0); why != "" {
+				l.add("R-SUCCESS", b.Name, key, b.posOf(st), Discharged, why, true)
+			} else {
+				l.add("R-SUCCESS", b.Name, key, b.posOf(st), Violated, "the element list stored here can be a nil slice (built by appending the remaining elements, possibly none, to a nil slice): an array that loses its last element is written out as null instead of []", true)
+			}
+		})
+	}
+}
+
+// nonNilSlice: why v cannot be a nil slice ("" when that is not established).
+func nonNilSlice(v ssa.Value, fn *ssa.Function, depth int) string {
+	if depth > 6 {
+		return ""
+	}
+	switch x := v.(type) {
+	case *ssa.MakeSlice:
+		return "made with make"
+	case *ssa.ChangeType:
+		return nonNilSlice(x.X, fn, depth+1)
+	case *ssa.Convert:
+		return nonNilSlice(x.X, fn, depth+1)
+	case *ssa.Slice:
+		if _, isAlloc := x.X.(*ssa.Alloc); isAlloc {
+			return "a slice literal"
+		}
+		if _, isSl := x.X.Type().Underlying().(*types.Slice); isSl {
+			if w := nonNilSlice(x.X, fn, depth+1); w != "" {
+				return "a reslice of " + w
+			}
+			// the array's own storage, of which an element has just been addressed
+			if ownStorage(x.X, fn) {
+				return "a reslice of the array's own storage, which holds the element addressed"
+			}
+		}
+	case *ssa.Phi:
+		why := ""
+		for _, e := range x.Edges {
+			w := nonNilSlice(e, fn, depth+1)
+			if w == "" {
+				return ""
+			}
+			why = w
+		}
+		return why
+	case *ssa.Call:
+		bi, ok := x.Call.Value.(*ssa.Builtin)
+		if !ok || bi.Name() != "append" || len(x.Call.Args) < 2 {
+			return ""
+		}
+		if w := nonNilSlice(x.Call.Args[0], fn, depth+1); w != "" {
+			return "an append onto " + w
+		}
+		// append(s, v): go/ssa passes a slice of a new one-element array
+		if sl, ok := x.Call.Args[1].(*ssa.Slice); ok {
+			if al, ok := sl.X.(*ssa.Alloc); ok {
+				if at, ok := derefPtr(al.Type()).Underlying().(*types.Array); ok && at.Len() >= 1 {
+					return "an append of at least one element"
+				}
+			}
+		}
+	}
+	return ""
+}
+
+// ownStorage: v is a load of the receiver's element list (or of the receiver itself, where
+// the array type is the slice).
+func ownStorage(v ssa.Value, fn *ssa.Function) bool {
+	if len(fn.Params) == 0 {
+		return false
+	}
+	recv := ssa.Value(fn.Params[0])
+	ld, ok := v.(*ssa.UnOp)
+	if !ok || ld.Op != token.MUL {
+		return false
+	}
+	if ld.X == recv {
+		return true
+	}
+	if fa, ok := ld.X.(*ssa.FieldAddr); ok && fa.X == recv {
+		return true
+	}
+	return false
+}
+
+// refusalReasons (R-SUCCESS): an operation fails only for a reason it can fail for. Every
+// error return of a handler is taken on an edge decided by something that can make the
+// operation inapplicable: a lookup or a call that yielded nothing or failed (a comparison with
+// nil, an error's identity), the empty pointer or another constant, an option or the copy
+// limit, the verdict of a node's own comparison or probe, the dynamic type of the container.
+// A refusal decided by anything else — a string function over the two pointers, the identity
+// of the container the resolver returned — turns applicable patches away (`move /a -> /ab`
+// refused as a move into its own child; `remove /` refused as the removal of the document).
+func (b *Body) refusalReasons(l *Ledger, ai *applyInfo) {
+	for _, k := range rfc6902Kinds {
+		h := ai.handlers[k]
+		if h == nil {
+			continue
+		}
+		ei := errResultIndex(h)
+		if ei < 0 {
+			continue
+		}
+		n := 0
+		for _, r := range liveReturns(h) {
+			if isNilConst(retVal(r, ei)) {
+				continue
+			}
+			n++
+			key := fmt.Sprintf("handler %q: error return #%d is taken for a reason the operation can fail for", k, n)
+			bad := ""
+			var reasons []string
+			// the deciding edges: those the return is control dependent on, and — where such an
+			// edge leaves a block that does nothing but evaluate the next operand of a compound
+			// condition — the edges that block depends on in turn (`a && b` is two branches)
+			deps := b.controlDeps(r.Block())
+			seenDep := map[edge]bool{}
+			for i := 0; i < len(deps) && i < 16; i++ {
+				e := deps[i]
+				if seenDep[e] {
+					continue
+				}
+				seenDep[e] = true
+				if len(e.From.Preds) == 1 && operandBlock(e.From) {
+					deps = append(deps, b.controlDeps(e.From)...)
+				}
+			}
+			done := map[edge]bool{}
+			for _, e := range deps {
+				if done[e] {
+					continue
+				}
+				done[e] = true
+				iff, ok := lastInstr(e.From).(*ssa.If)
+				if !ok {
+					continue
+				}
+				why := ""
+				atoms := condAtoms(iff.Cond, e.Succ == 0, 0)
+				allOK := true
+				for _, at := range atoms {
+					if _, isPhi := at.V.(*ssa.Phi); isPhi && len(atoms) > 1 {
+						continue // the conjunction itself; its operands follow
+					}
+					if w := b.admissibleReason(at.V, 0); w != "" {
+						why = w
+					} else {
+						allOK = false
+					}
+				}
+				if !allOK {
+					why = ""
+				}
+				if why == "" {
+					bad = "the refusal at " + b.posOf(r) + " is decided by the condition at " + b.posOf(iff) + " (" + describeValue(iff.Cond) + "), which is neither a failed lookup or call, nor a constant, an option, a node's verdict or a container's type: an applicable operation can be turned away"
+				} else {
+					reasons = append(reasons, why)
+				}
+			}
+			if bad != "" {
+				l.add("R-SUCCESS", b.Name, key, b.posOf(r), Violated, bad, true)
+			} else {
+				l.add("R-SUCCESS", b.Name, key, b.posOf(r), Discharged, "decided by: "+strings.Join(dedup(reasons), "; "), true)
+			}
+		}
+	}
+}
+
+func (b *Body) admissibleReason(v ssa.Value, depth int) string {
+	c, _ := stripNot(v)
+	if _, _, ok := nilTestOfCond(c); ok {
+		return "a comparison with nil"
+	}
+	switch x := c.(type) {
+	case *ssa.Phi:
+		// a verdict held in a variable: each value it can hold is a constant or a reason
+		if depth > 3 {
+			return ""
+		}
+		why := ""
+		for _, e := range x.Edges {
+			if _, isK := boolConst(e); isK {
+				continue
+			}
+			w := b.admissibleReason(e, depth+1)
+			if w == "" {
+				return ""
+			}
+			why = w
+		}
+		return why
+	case *ssa.BinOp:
+		for _, o := range []ssa.Value{x.X, x.Y} {
+			if _, isK := o.(*ssa.Const); isK {
+				return "a comparison with a constant"
+			}
+			if g := sentinelGlobal(o); g != nil {
+				return "an error's identity (" + g.Name() + ")"
+			}
+			if b.limitSource(o) != "" {
+				return "an option or package setting"
+			}
+		}
+	case *ssa.UnOp:
+		if x.Op == token.MUL && b.limitSource(x) != "" {
+			return "an option or package setting"
+		}
+	case *ssa.Extract:
+		switch t := x.Tuple.(type) {
+		case *ssa.TypeAssert:
+			return "the container's dynamic type"
+		case *ssa.Lookup:
+			return "a member lookup"
+		case *ssa.Call:
+			if w := b.admissibleCall(t); w != "" {
+				return w
+			}
+		}
+	case *ssa.Call:
+		return b.admissibleCall(x)
+	}
+	return ""
+}
+
+func (b *Body) admissibleCall(call *ssa.Call) string {
+	f := call.Call.StaticCallee()
+	if f == nil {
+		if call.Call.IsInvoke() {
+			return "the answer of a container method"
+		}
+		return ""
+	}
+	switch stdName(f) {
+	case "errors.Is", "errors.As":
+		return "an error's identity"
+	}
+	if f.Pkg == b.Lib || (b.Codec != nil && f.Pkg == b.Codec) {
+		// a verdict of the library's own: a node's comparison or probe, the well-formedness gate
+		for _, a := range call.Call.Args {
+			if isPtrToNamed(a.Type(), "lazyNode") || isNamed(a.Type(), "container") {
+				return "the verdict of " + fname(f)
+			}
+		}
+		if strings.HasPrefix(f.Name(), "Valid") {
+			return "the well-formedness gate"
+		}
+	}
+	return ""
+}
+
+// operandBlock: the block only computes a condition (loads, comparisons, len) and branches.
+func operandBlock(bb *ssa.BasicBlock) bool {
+	for _, ins := range bb.Instrs {
+		switch x := ins.(type) {
+		case *ssa.BinOp, *ssa.UnOp, *ssa.FieldAddr, *ssa.IndexAddr, *ssa.If, *ssa.DebugRef, *ssa.Convert, *ssa.ChangeType:
+		case *ssa.Call:
+			if bi, ok := x.Call.Value.(*ssa.Builtin); !ok || bi.Name() != "len" {
+				return false
+			}
+		default:
+			return false
+		}
+	}
+	return true
+}
+
+// mergeNamesLiteral (R-MERGESHAPE M6): the member names of a merge patch are names, not JSON
+// pointer tokens. Nothing that mergeDocs reaches — the object container's set, remove and
+// lookups included — applies the RFC 6901 token decoder: a name such as "a~1b" must arrive
+// in the target as it is spelled (moving the decoder from the resolver into the container's
+// methods makes MergePatch rename such members to "a/b").
+func (b *Body) mergeNamesLiteral(l *Ledger, mergeDocs *ssa.Function) {
+	key := "(M8) mergeDocs: member names reach the target as they are (no JSON-pointer decoding on the way)"
+	dec := b.roleFn("decodePatchKey")
+	isDecoder := func(f *ssa.Function, cc *ssa.CallCommon) bool {
+		if f != nil && dec != nil && f == dec {
+			return true
+		}
+		if f != nil && stdName(f) == "strings.(*Replacer).Replace" && len(cc.Args) > 0 {
+			if g := loadedGlobal(cc.Args[0]); g != nil && g.Pkg == b.Lib {
+				return true
+			}
+		}
+		return false
+	}
+	seen := map[*ssa.Function]bool{mergeDocs: true}
+	queue := []*ssa.Function{mergeDocs}
+	from := map[*ssa.Function]*ssa.Function{}
+	bad := ""
+	for len(queue) > 0 && bad == "" {
+		fn := queue[0]
+		queue = queue[1:]
+		allInstrs(fn, func(i ssa.Instruction) {
+			ci, ok := i.(ssa.CallInstruction)
+			if !ok || bad != "" {
+				return
+			}
+			cc := ci.Common()
+			for _, g := range b.callees(cc) {
+				if isDecoder(g, cc) {
+					path := fname(fn)
+					for p := from[fn]; p != nil; p = from[p] {
+						path = fname(p) + " → " + path
+					}
+					bad = "the token decoder is applied at " + b.posOf(i) + ", reached from the merge walk through " + path + ": a member name holding ~0 or ~1 is rewritten (\"a~1b\" becomes \"a/b\") when a merge patch is applied or composed"
+					return
+				}
+				if g == nil || g.Pkg != b.Lib || seen[g] || len(g.Blocks) == 0 {
+					continue
+				}
+				seen[g] = true
+				from[g] = fn
+				queue = append(queue, g)
+			}
+		})
+	}
+	if bad != "" {
+		l.add("R-MERGESHAPE", b.Name, key, b.rel(mergeDocs.Pos()), Violated, bad, true)
+	} else {
+		l.add("R-MERGESHAPE", b.Name, key, b.rel(mergeDocs.Pos()), Discharged, fmt.Sprintf("%d library function(s) reachable from the merge walk, none applies the RFC 6901 decoder", len(seen)), true)
+	}
+}
+
+// textlessNullOnlyWhenRaw (R-NULLSPELL): "no text" spells null only for a node that has not
+// been decoded. The node the test handler builds for the whole document, and any node put
+// together from a container, is text-less *and* holds a value; a null test that answers from
+// `raw == nil` before looking at the node's kind takes the whole document for null (`test ""
+// null` passes, `test ""` against the document fails). Every bool method of the node that
+// answers true on a raw == nil edge does so under which == eRaw — tested in the method, or
+// at every one of its call sites, or on a node that was just made from a text.
+func (b *Body) textlessNullOnlyWhenRaw(l *Ledger) {
+	eRaw := int64(-1)
+	if nc, ok := b.Lib.Members["eRaw"].(*ssa.NamedConst); ok {
+		if k, ok := intConst(nc.Value); ok {
+			eRaw = k
+		}
+	}
+	rawFact := func(f edgeFact, recv ssa.Value) bool {
+		bo, ok := f.V.(*ssa.BinOp)
+		if !ok || (bo.Op != token.EQL && bo.Op != token.NEQ) {
+			return false
+		}
+		k, isK := intConst(bo.Y)
+		if !isK || k != eRaw {
+			return false
+		}
+		base, fr, ok := fieldLoad(bo.X)
+		if !ok || fr.Field != "which" || base != recv {
+			return false
+		}
+		return (bo.Op == token.EQL) == f.True
+	}
+	for _, f := range b.srcFuncs(b.Lib) {
+		if f.Signature.Recv() == nil || !isPtrToNamed(f.Signature.Recv().Type(), "lazyNode") || f.Signature.Params().Len() != 0 || f.Signature.Results().Len() != 1 || typeShort(f.Signature.Results().At(0).Type()) != "bool" {
+			continue
+		}
+		recv := ssa.Value(f.Params[0])
+		// a null test: looks at whether the node has a text, and writes nothing into the node
+		testsRaw, writes := false, false
+		allInstrs(f, func(i ssa.Instruction) {
+			switch x := i.(type) {
+			case *ssa.Store:
+				if fa, ok := x.Addr.(*ssa.FieldAddr); ok && fa.X == recv {
+					writes = true
+				}
+			case *ssa.BinOp:
+				if v, _, ok := nilTestOfCond(x); ok {
+					if base, fr, isLd := fieldLoad(v); isLd && fr.Field == "raw" && base == recv {
+						testsRaw = true
+					}
+				}
+			}
+		})
+		if !testsRaw || writes {
+			continue
+		}
+		// returns that can say true for a node that exists
+		var open []*ssa.Return
+		any := false
+		for _, r := range liveReturns(f) {
+			v := retVal(r, 0)
+			if k, isK := boolConst(v); isK && !k {
+				continue
+			}
+			facts := dominatingFacts(r.Block())
+			facts = append(facts, condAtoms(v, true, 0)...)
+			guarded, recvNil := false, false
+			for _, ft := range facts {
+				if x, nn, ok := nilTestOfCond(ft.V); ok {
+					if x == recv && nn != ft.True {
+						recvNil = true
+					}
+				}
+				if rawFact(ft, recv) {
+					guarded = true
+				}
+			}
+			if recvNil {
+				continue
+			}
+			any = true
+			if !guarded {
+				open = append(open, r)
+			}
+		}
+		if !any {
+			continue
+		}
+		key := fname(f) + ": a node without text counts as null only while it is undecoded (which == eRaw)"
+		if len(open) == 0 {
+			l.add("R-NULLSPELL", b.Name, key, b.rel(f.Pos()), Discharged, "every return that says true for raw == nil lies behind which == eRaw in the method itself", true)
+			continue
+		}
+		// … or at every call site
+		bad := ""
+		sites := 0
+		for _, g := range b.srcFuncs(b.Lib) {
+			for _, cs := range callsTo(g, func(cc *ssa.CallCommon) bool { return cc.StaticCallee() == f }) {
+				sites++
+				arg := cs.Common().Args[0]
+				ok := false
+				for _, ft := range dominatingFacts(cs.Block()) {
+					if rawFact(ft, arg) {
+						ok = true
+					}
+				}
+				if call, isCall := arg.(*ssa.Call); isCall {
+					if cf := call.Call.StaticCallee(); cf != nil && (cf == b.roleFn("newLazyNode") || (recvTypeName(cf) == "Operation" && cf.Name() == "value")) {
+						ok = true // just made from a text
+					}
+				}
+				if !ok {
+					bad = "the return at " + b.posOf(open[0]) + " says null for any node without text, and the call at " + b.posOf(cs) + " in " + fname(g) + " asks it about a node that may be decoded: the node built for the whole document (no text, kind object or array) is taken for null"
+				}
+			}
+		}
+		if bad != "" {
+			l.add("R-NULLSPELL", b.Name, key, b.posOf(open[0]), Violated, bad, true)
+		} else {
+			l.add("R-NULLSPELL", b.Name, key, b.rel(f.Pos()), Discharged, fmt.Sprintf("the method answers from raw == nil alone, and each of its %d call site(s) asks it only under which == eRaw or about a node just made from a text", sites), true)
+		}
+	}
+}
